@@ -21,6 +21,78 @@ def compile_isar(xml, workdir, base):
     return res[base]
 
 
+def include_named_like_a_definition(chk, workdir):
+    """an included file whose base name equals a definition of the including file does not provide that definition (D78)"""
+    d = os.path.join(workdir, 'inc')
+    os.makedirs(d)
+    with open(os.path.join(d, 'S.xml'), 'w') as f:
+        f.write('<x><constant name="K" value="3"/></x>')
+    T = '<struct name="T"><member name="s" type="S"/><member name="k" type="u8"><dimension size="K"/></member></struct>'
+    Sx = '<struct name="S"><member name="y" type="u8"/><member name="z" type="u32"/></struct>'
+    layouts = []
+    for order, body in (('S first', Sx + T), ('T first', T + Sx)):
+        xml = '<x xmlns:xi="http://www.xyz.com/1984/XInclude"><xi:include href="S.xml"/>%s</x>' % body
+        base = 'a' + order[0]
+        casej = {'files': {'S.xml': '<x><constant name="K" value="3"/></x>', base + '.xml': xml}, 'rule': 'include named like a definition'}
+        chk.count(('include-named', order), order == 'T first')
+        chk.bump('directed:include named like a definition')
+        src = os.path.join(d, base + '.xml')
+        with open(src, 'w') as f:
+            f.write(xml)
+        try:
+            res, _ = py_impl.run_prophyc(['--isar', '-I', d, '--python_out', d, os.path.join(d, 'S.xml')])
+            res, _ = py_impl.run_prophyc(['--isar', '-I', d, '--python_out', d, src])
+            nodes = res[base]
+        except Exception as ex:  # noqa
+            chk.property_violation(casej, {'what': 'prophyc failed on an acyclic definition set: %s: %s' % (type(ex).__name__, str(ex)[:300])})
+            continue
+        got = [n.name for n in nodes if hasattr(n, 'members') and not type(n).__name__ == 'Include']
+        if got != ['S', 'T']:
+            chk.property_violation(casej, {'what': "definitions are listed as %s: 'T' needs 'S' before it" % got})
+        layouts.append({n.name: (n.byte_size, n.alignment) for n in nodes if hasattr(n, 'byte_size') and hasattr(n, 'members')})
+        try:
+            from harness.checks import files as F
+            F.import_package(d, ['S', base])
+        except Exception as ex:  # noqa
+            chk.property_violation(casej, {'what': 'generated Python module does not import: %s: %s' % (type(ex).__name__, str(ex)[:200])})
+    if len(layouts) == 2 and layouts[0] != layouts[1]:
+        chk.property_violation({'rule': 'include named like a definition'}, {'what': 'layout differs between the two orders', 'layouts': layouts})
+
+
+def classify_c15(case, detail):
+    """D79: `--prophy_out` (SchemaTranslator has no translate_typedef) lists no typedef"""
+    if case.get('rule') == '--prophy_out lists every definition' and detail.get('missing_kinds') == ['Typedef']:
+        return 'D79'
+    return None
+
+
+def prophy_out_lists_everything(chk, workdir):
+    """the schema generator is an output of prophyc too: every definition exactly once (typedefs are dropped: known finding D79)"""
+    import re
+    d = os.path.join(workdir, 'pout')
+    os.makedirs(d)
+    xml = ('<x><struct name="S"><member name="a" type="T"/><member name="b" type="TS"/><member name="e" type="E"/></struct><typedef name="TS" type="Inner"/>'
+           '<typedef name="T" type="u16"/><struct name="Inner"><member name="i" type="u8"/></struct><enum name="E"><enum-member name="E_A" value="1"/></enum>'
+           '<union name="U"><member name="x" type="u8" discriminatorValue="1"/></union><constant name="K" value="3"/></x>')
+    src = os.path.join(d, 'f.xml')
+    with open(src, 'w') as f:
+        f.write(xml)
+    casej = {'xml': xml, 'rule': '--prophy_out lists every definition'}
+    chk.count(('prophy_out',), True)
+    chk.bump('directed:--prophy_out')
+    try:
+        res, _ = py_impl.run_prophyc(['--isar', '--prophy_out', d, src])
+        text = open(os.path.join(d, 'f.prophy')).read()
+    except Exception as ex:  # noqa
+        chk.property_violation(casej, {'what': 'prophyc --prophy_out failed: %s: %s' % (type(ex).__name__, str(ex)[:300])})
+        return
+    nodes = res['f']
+    missing = [n for n in nodes if len(re.findall(r'(?<![\w])%s(?![\w])\s*(=|\{|;)' % re.escape(n.name), text)) != 1]
+    if missing:
+        chk.property_violation(casej, {'what': '--prophy_out does not list %s exactly once' % [n.name for n in missing], 'output': text,
+                                       'missing_kinds': sorted(set(type(n).__name__ for n in missing))}, classify_c15)
+
+
 def run_c15(tier):
     chk = core.Check('C15', tier)
     chk.rule = ('random acyclic definition sets (constants with expressions over constants/enumerators, enums, typedefs, structs with '
@@ -88,6 +160,8 @@ def run_c15(tier):
                 # correspondence: the model of topological_sort
                 reqs.append({'op': 'prophyc_topo', 'decls': isar.topo_decls(sc, order)})
                 rows.append((casej, got))
+        include_named_like_a_definition(chk, workdir)
+        prophy_out_lists_everything(chk, workdir)
         ans = client.batch(reqs)
         for (casej, got), a in zip(rows, ans):
             chk.corr_compared += 1
